@@ -35,6 +35,14 @@ pub fn configs(prop: Prop, thorough: bool) -> Vec<(E1Cfg, Vec<Bound>)> {
             let mut c = E1Cfg::base(prop, "c01-multi+single-N2", 2, vec![vec![m2.clone()], vec![r4.clone()]]);
             c.reorder = true;
             v.push((c, b_quick.clone()));
+            // view family: every length 0..=8 x every front-trim amount 0..=len+1 (sequential)
+            for len in 0..=8u16 {
+                let reqs: Vec<Req> = (0..=(len as usize + 1)).map(|ct| Req::ReadTrim { len, ct }).collect();
+                for (k, chunk) in reqs.chunks(3).enumerate() {
+                    let c = E1Cfg::base(prop, &format!("c01-trim-len{}-{}", len, k), 1, vec![chunk.to_vec()]);
+                    v.push((c, vec![Bound::new(0, 0)]));
+                }
+            }
             if thorough {
                 let b3 = vec![Bound::new(0, 0), Bound::new(1, 1), Bound::new(2, 1), Bound::new(3, 1)];
                 let b2 = vec![Bound::new(0, 0), Bound::new(1, 1), Bound::new(2, 2)];
@@ -154,16 +162,14 @@ fn run_prop(prop: Prop, id: &str, tier: &Tier, rule: &str) -> Result<i32, String
     rep.assumptions = ASSUME.iter().map(|s| s.to_string()).collect();
     let budget = if tier.thorough { 1500.0 } else { 50.0 };
     let cfgs = configs(prop, tier.thorough);
-    let total_weight: f64 = cfgs.len() as f64;
     let mut described = Vec::new();
     for (cfg, bounds) in cfgs {
         let h = E1Harness { cfg: cfg.clone() };
         described.push(json!(describe(&cfg)));
         let remaining = (budget - rep.t0.elapsed().as_secs_f64()).max(2.0);
-        let left = (total_weight - described.len() as f64 + 1.0).max(1.0);
         let lim = Limits {
             max_executions: u64::MAX,
-            max_wall: Duration::from_secs_f64((remaining / left * 2.0).min(remaining)),
+            max_wall: Duration::from_secs_f64(if bounds.len() > 1 { remaining } else { remaining.min(5.0) }),
             workers: crate::core::workers(),
         };
         let known = crate::report::Known::load();
